@@ -200,7 +200,7 @@ pub fn init(cfg: Config) -> &'static World {
         Some((lo, hi)) => set(&mut builder, "gc_trigger", &format!("DynamicHeapSize:{}m,{}m", lo, hi)),
         None => set(&mut builder, "gc_trigger", &format!("FixedHeapSize:{}m", cfg.heap_mb)),
     }
-    if cfg.stress > 0 {
+    if cfg.stress > 0 && cfg.collects() {
         set(&mut builder, "stress_factor", &cfg.stress.to_string());
     }
     if let Some(n) = &cfg.nursery {
